@@ -179,6 +179,16 @@ impl CertPlan {
     }
 }
 
+/// other octets with the same digits when each octet is written in hexadecimal WITHOUT a leading zero:
+/// 0X YZ  ->  XY 0Z  (X, Y non-zero)
+fn ski_regrouped(d: &[u8]) -> Option<Vec<u8>> {
+    let i = (0..d.len().saturating_sub(1)).find(|&i| (1..16).contains(&d[i]) && d[i + 1] >= 0x10)?;
+    let mut o = d.to_vec();
+    o[i] = (d[i] << 4) | (d[i + 1] >> 4);
+    o[i + 1] = d[i + 1] & 0x0f;
+    Some(o)
+}
+
 struct Keys {
     keys: Vec<SigningKey>,
     skis: Vec<Vec<u8>>,
@@ -186,7 +196,10 @@ struct Keys {
 
 impl Keys {
     fn new(ctx: &mut Ctx) -> Keys {
-        let keys: Vec<SigningKey> = (0..NKEYS).map(|_| SigningKey::random(&mut ctx.rng)).collect();
+        let mut keys: Vec<SigningKey> = (0..NKEYS).map(|_| SigningKey::random(&mut ctx.rng)).collect();
+        // the leaf key is drawn until its key identifier has an octet 01..0f followed by one >= 10 (see ski_regrouped)
+        let digest = |k: &SigningKey| -> Vec<u8> { let spki = SubjectPublicKeyInfoOwned::from_key(*k.verifying_key()).unwrap(); Sha1::digest(spki.subject_public_key.raw_bytes()).to_vec() };
+        while ski_regrouped(&digest(&keys[KEY_LEAF])).is_none() { keys[KEY_LEAF] = SigningKey::random(&mut ctx.rng); }
         let skis = keys
             .iter()
             .map(|k| {
@@ -759,6 +772,9 @@ fn leaf_devs() -> Vec<Dev> {
         ("leaf:ski_mismatch", |s, k| s.leaf.set(Kind::Ski, ExtV::Ski(k.skis[KEY_STRANGER].clone()))),
         ("leaf:ski_truncated", |s, k| s.leaf.set(Kind::Ski, ExtV::Ski(k.skis[KEY_LEAF][..8].to_vec()))),
         ("leaf:ski_empty", |s, _| s.leaf.set(Kind::Ski, ExtV::Ski(vec![]))),
+        ("leaf:ski_same_digits_regrouped", |s, k| s.leaf.set(Kind::Ski, ExtV::Ski(ski_regrouped(&k.skis[KEY_LEAF]).unwrap_or_default()))),
+        ("leaf:ski_padded", |s, k| s.leaf.set(Kind::Ski, ExtV::Ski([k.skis[KEY_LEAF].clone(), vec![0]].concat()))),
+        ("leaf:ski_zero_prefixed", |s, k| s.leaf.set(Kind::Ski, ExtV::Ski([vec![0], k.skis[KEY_LEAF].clone()].concat()))),
         // CRL distribution points
         ("leaf:crl_empty", |s, _| s.leaf.set(Kind::Crl, ExtV::Crl(vec![]))),
         ("leaf:crl_reasons", |s, _| s.leaf.set(Kind::Crl, ExtV::Crl(vec![Point { reasons: true, ..uri_point() }]))),
